@@ -175,8 +175,8 @@ InitGenesis_E(s, e) ==
   IN [s EXCEPT !.phase = "out", !.params = e.params, !.vals = a.vals, !.cons = a.cons, !.lastPow = a.lastPow,
                !.batch = a.batch, !.comet = c.comet, !.cometOK = c.ok]
 
-(* genesis round trip between blocks: validators, powers, params are exported; history is not *)
-ExportImport_G(s, e) == [ phase |-> s.phase = "out" /\ ~s.halted ]
+(* genesis round trip (between blocks, or of the working state inside a block): validators, powers, params are exported; history is not *)
+ExportImport_G(s, e) == [ phase |-> s.phase \in {"in", "out"} /\ ~s.halted ]
 ExportImport_E(s, e) ==
   \* InitGenesis(exported) returns one update per last-power entry; a fresh engine starts from exactly those
   LET upd == [k \in {s.vals[o].key : o \in DOMAIN s.lastPow} |-> LET o == CHOOSE x \in DOMAIN s.lastPow : s.vals[x].key = k IN s.lastPow[o]]
